@@ -94,3 +94,15 @@ Definition sel_tag (o : outsel) : nat :=
              | OSnr => 6 | OEvRate _ _ => 7 | OEvInterval _ _ => 8 end%nat.
 Definition handover_table_complete (gen : list (outsel * handover)) : bool :=
   forallb (fun t => existsb (fun p => Nat.eqb (sel_tag (fst p)) t) gen) (seq 0 9).
+
+(* ------------------------------------------------------------------ re-use histories *)
+(* a history of constructions / set_inputs / reads on real analyzer objects, with the Fs the algorithm
+   layer was called with at every read (None for the other operations) *)
+Definition seq_matches (m : option (float * Z)) (o : option float) : bool :=
+  match m, o with
+  | None, None => true
+  | Some (f, dt), Some g => fclose dt f g
+  | _, _ => false
+  end.
+Definition check_seq (ops : list op) (seen : list (option float)) : bool :=
+  all2 seq_matches (run_ops world0 ops) seen.
